@@ -2,6 +2,7 @@ pub mod c01;
 pub mod c06;
 pub mod c07;
 pub mod c09;
+pub mod c17;
 
 use crate::evidence::{Ctx, Meta, Report};
 
@@ -11,6 +12,7 @@ pub fn dispatch(ctx: &Ctx) -> Option<(Report, Meta)> {
         "C06" => c06::run(ctx),
         "C07" => c07::run(ctx),
         "C09" => c09::run(ctx),
+        "C17" => c17::run(ctx),
         _ => return None,
     })
 }
